@@ -344,9 +344,33 @@ module RangeM :
 
   val range_eqb : range -> range -> bool
 
+  type token =
+  | TStar
+  | TVer of ver
+  | TLt of ver
+  | TLe of ver
+  | TGt of ver
+  | TGe of ver
+
+  val token_rect :
+    'a1 -> (ver -> 'a1) -> (ver -> 'a1) -> (ver -> 'a1) -> (ver -> 'a1) ->
+    (ver -> 'a1) -> token -> 'a1
+
+  val token_rec :
+    'a1 -> (ver -> 'a1) -> (ver -> 'a1) -> (ver -> 'a1) -> (ver -> 'a1) ->
+    (ver -> 'a1) -> token -> 'a1
+
+  val seg_tokens : seg -> token list
+
+  val display_tokens : range -> token list list
+
   val display_seg : (ver -> text) -> seg -> text
 
   val display : (ver -> text) -> range -> text
+
+  val render_token : (ver -> text) -> token -> text
+
+  val render : (ver -> text) -> token list list -> text
  end
 
 module ZV :
@@ -476,9 +500,33 @@ module RZ :
 
   val range_eqb : range -> range -> bool
 
+  type token =
+  | TStar
+  | TVer of ver
+  | TLt of ver
+  | TLe of ver
+  | TGt of ver
+  | TGe of ver
+
+  val token_rect :
+    'a1 -> (ver -> 'a1) -> (ver -> 'a1) -> (ver -> 'a1) -> (ver -> 'a1) ->
+    (ver -> 'a1) -> token -> 'a1
+
+  val token_rec :
+    'a1 -> (ver -> 'a1) -> (ver -> 'a1) -> (ver -> 'a1) -> (ver -> 'a1) ->
+    (ver -> 'a1) -> token -> 'a1
+
+  val seg_tokens : seg -> token list
+
+  val display_tokens : range -> token list list
+
   val display_seg : (ver -> text) -> seg -> text
 
   val display : (ver -> text) -> range -> text
+
+  val render_token : (ver -> text) -> token -> text
+
+  val render : (ver -> text) -> token list list -> text
  end
 
 val rz_display : RZ.range -> text
